@@ -11,6 +11,7 @@ import (
 	"path/filepath"
 	"runtime"
 	"runtime/debug"
+	"runtime/pprof"
 	"sort"
 	"strconv"
 	"strings"
@@ -113,6 +114,15 @@ func Main(checks map[string]*Check) {
 	case *replay != "":
 		os.Exit(runReplay(ck, *replay))
 	case *worker >= 0:
+		if pf := os.Getenv("VERIF_CPUPROFILE"); pf != "" && *worker == 0 { // development aid: profile worker 0
+			if f, err := os.Create(pf); err == nil {
+				pprof.StartCPUProfile(f)
+				rc := runWorker(ck, tier, *worker, *workers, *out, *journal, *skip)
+				pprof.StopCPUProfile()
+				f.Close()
+				os.Exit(rc)
+			}
+		}
 		os.Exit(runWorker(ck, tier, *worker, *workers, *out, *journal, *skip))
 	default:
 		os.Exit(runParent(ck, tier, *workers))
